@@ -101,6 +101,23 @@ def abs_to_rel(a):
     return out
 
 
+def unconsolidate(rng, rel, p=0.3, trailing=True):
+    """same music, different message list: some waits split in two, and sometimes one or two extra trailing waits
+    (what concatenation, hand-built sequences or add_relative_message leave behind before any normalise)"""
+    out = []
+    for m in rel:
+        if m[0] == WAIT and m[2] is not None and m[2] >= 2 and rng.random() < p:
+            a = rng.randint(1, m[2] - 1)
+            out.append(pm(WAIT, m[1], a))
+            out.append(pm(WAIT, m[1], m[2] - a))
+        else:
+            out.append(m)
+    if trailing and rng.random() < 0.4:
+        for _ in range(rng.choice([1, 2, 2, 3])):
+            out.append(pm(WAIT, 0, rng.choice([1, 6, 12, 5])))
+    return out
+
+
 def gen_wf_rel(rng, **kw):
     a, notes = gen_wf_abs(rng, **kw)
     return abs_to_rel(a), notes
@@ -134,6 +151,14 @@ def gen_ill_rel(rng, n=None, channels=(0, 1), pitches=(0, 1, 60, 61)):
 # ----------------------------------------------------------------------------- pieces for bars / tokeniser
 
 SIGS = [(4, 4), (3, 4), (2, 4), (6, 8), (5, 8), (7, 8), (2, 2), (3, 8), (4, 8)]
+# unusual but legal signatures: long bars (more than 16 eighths), numerators at the range bounds, whole- and half-note
+# beats, sixteenth beats (odd ones have no whole number of eighths: the tokeniser must reject them)
+EXOTIC_SIGS = [(9, 4), (5, 2), (12, 4), (6, 2), (8, 4), (3, 2), (12, 8), (16, 8), (17, 8), (1, 4), (1, 8), (2, 8), (9, 8),
+               (15, 8), (3, 16), (6, 16), (1, 2), (4, 2), (1, 1), (2, 1), (16, 4)]
+
+
+def pick_sig(rng):
+    return rng.choice(EXOTIC_SIGS) if rng.random() < 0.15 else rng.choice(SIGS)
 
 
 def bar_len(num, den, ppqn=24):
@@ -161,10 +186,10 @@ def gen_piece(rng, n_tracks=None, n_bars=None, steps=None, values=None, pitch_ra
     for b in range(n_bars):
         if b == 0:
             if rng.random() < 0.7:
-                cur = rng.choice(SIGS)
+                cur = pick_sig(rng)
                 sigs.append((0, cur[0], cur[1]))
         elif rng.random() < sig_change_prob:
-            cur = rng.choice(SIGS)
+            cur = pick_sig(rng)
             sigs.append((t, cur[0], cur[1]))
         num, den = cur if cur is not None else (None, None)
         bars.append((t, None, num, den))
